@@ -52,6 +52,30 @@ func init() {
 		"(*reflect.rtype).Kind":                inRtypeKind,
 		"(*reflect.rtype).NumMethod":           inRtypeNumMethod,
 		"(*reflect.rtype).Method":              inRtypeMethod,
+		"(*reflect.rtype).Elem": func(m *Machine, fn *ssa.Function, a []Value) Value {
+			t := nativeOf(a[0]).RT
+			switch u := t.Underlying().(type) {
+			case *types.Pointer:
+				return m.rtype(u.Elem())
+			case *types.Slice:
+				return m.rtype(u.Elem())
+			case *types.Array:
+				return m.rtype(u.Elem())
+			case *types.Map:
+				return m.rtype(u.Elem())
+			}
+			panic(goPanic{msg: "reflect: Elem of invalid type " + t.String()})
+		},
+		"(*reflect.rtype).Name": func(m *Machine, fn *ssa.Function, a []Value) Value {
+			t := nativeOf(a[0]).RT
+			if n, ok := t.(*types.Named); ok {
+				return n.Obj().Name()
+			}
+			if b, ok := t.(*types.Basic); ok {
+				return b.Name()
+			}
+			return ""
+		},
 		"github.com/gontainer/gontainer-helpers/v3/container.New": func(m *Machine, fn *ssa.Function, a []Value) Value {
 			return Pointer{C: m.newCell(&Native{Kind: "container"})}
 		},
@@ -178,6 +202,7 @@ func (m *Machine) sprintf(format Value, args Slice) (Value, *Value) {
 			continue
 		}
 		op := ops[ai].(Iface)
+		op.V = forceLazy(op.V)
 		ai++
 		switch verb {
 		case 'w':
@@ -292,6 +317,7 @@ func (m *Machine) goSyntax(op Iface) *Term {
 
 // export models exporter.Export for the YAML scalar kinds (DESIGN 3.9).
 func (m *Machine) export(v Iface) (Value, bool) {
+	v.V = forceLazy(v.V)
 	if v.T == nil {
 		return "nil", true
 	}
@@ -585,10 +611,6 @@ func inSubexpNames(m *Machine, fn *ssa.Function, a []Value) Value {
 	return m.stringSlice(out)
 }
 
-var (
-	uniqMu    sync.Mutex
-	uniqCache = map[string]bool{} // pattern -> globally unambiguous (bounded)
-)
 
 func inFindStringSubmatch(m *Machine, fn *ssa.Function, a []Value) Value {
 	re := regexOf(a[0])
@@ -611,12 +633,6 @@ func inFindStringSubmatch(m *Machine, fn *ssa.Function, a []Value) Value {
 	if prev, ok := m.env[memoKey].([]Value); ok {
 		return m.stringSlice(prev)
 	}
-	d, err := DecomposeCaptures(re.Pattern, s, m.freshVar)
-	if err != nil {
-		unsupported("regexp captures: %v", err)
-	}
-	m.captureUniqueness(re, s)
-	m.assume(d.Constraint)
 	names := re.Go.SubexpNames()
 	out := make([]Value, len(names))
 	out[0] = fromTerm(s)
@@ -628,62 +644,76 @@ func inFindStringSubmatch(m *Machine, fn *ssa.Function, a []Value) Value {
 			out[i] = &Native{Kind: "unnamed-capture"} // unspecified; any use is rejected
 			continue
 		}
-		c, ok := d.Captures[n]
-		if !ok {
-			unsupported("capture %q not on the spine of %q", n, re.Pattern)
-		}
-		out[i] = fromTerm(c)
+		// a capture is decomposed (existentially, DESIGN 3.5) only if the
+		// program uses it; its uniqueness is an obligation at that point
+		name := n
+		var forced *Term
+		out[i] = &Native{Kind: "lazy-capture", Force: func() *Term {
+			if forced == nil {
+				d, err := DecomposeWanted(re.Pattern, s, m.freshVar, map[string]bool{name: true})
+				if err != nil {
+					unsupported("regexp captures: %v", err)
+				}
+				if !m.captureUniqueGlobally(re, name) {
+					m.captureUniqueOnPath(re, s, name)
+				}
+				m.assume(d.Constraint)
+				forced = d.Captures[name]
+			}
+			return forced
+		}}
 	}
 	m.env[memoKey] = out
 	return m.stringSlice(out)
 }
 
-// captureUniqueness discharges the uniqueness obligation of DESIGN 3.5: two
-// decompositions of the same subject cannot differ in a named capture.
-func (m *Machine) captureUniqueness(re *Regex, s *Term) {
-	uniqMu.Lock()
-	known, ok := uniqCache[re.Pattern]
-	uniqMu.Unlock()
-	if ok && known {
-		return
-	}
-	mk := func(tag string, subj *Term) (*Decomp, error) {
+var (
+	uniqMu    sync.Mutex
+	uniqCache = map[string]bool{} // pattern + "\x00" + capture -> unambiguous for every subject (bounded)
+)
+
+func (m *Machine) twoDecomps(re *Regex, name, tagA, tagB string, subj *Term) (*Decomp, *Decomp) {
+	mk := func(tag string) *Decomp {
 		n := 0
-		return DecomposeCaptures(re.Pattern, subj, func(p string, so Sort) *Term {
+		d, err := DecomposeWanted(re.Pattern, subj, func(p string, so Sort) *Term {
 			n++
 			return VarT(fmt.Sprintf("uq%s_%s_%d", tag, sanitizeName(p), n), so)
-		})
-	}
-	if !ok {
-		// global check with a length bound
-		subj := VarT("uq_subject", SString)
-		d1, err1 := mk("a", subj)
-		d2, err2 := mk("b", subj)
-		if err1 != nil || err2 != nil {
-			unsupported("regexp captures: %v %v", err1, err2)
+		}, map[string]bool{name: true})
+		if err != nil {
+			unsupported("regexp captures: %v", err)
 		}
-		var diff []*Term
-		for n, c1 := range d1.Captures {
-			diff = append(diff, Not(Eq(c1, d2.Captures[n])))
-		}
-		q := []*Term{Le(Len(subj), IntT(int64(2*m.Cfg.MaxStrLen+8))), d1.Constraint, d2.Constraint, Or(diff...)}
-		r := m.Solver.Check(q)
-		uniqMu.Lock()
-		uniqCache[re.Pattern] = r == Unsat
-		uniqMu.Unlock()
-		if r == Unsat {
-			return
-		}
+		return d
 	}
-	// path-local check
-	d1, _ := mk("c", s)
-	d2, _ := mk("d", s)
-	var diff []*Term
-	for n, c1 := range d1.Captures {
-		diff = append(diff, Not(Eq(c1, d2.Captures[n])))
+	return mk(tagA), mk(tagB)
+}
+
+// captureUniqueGlobally: no subject (up to a length bound) has two parses
+// that differ in this capture (DESIGN 3.5). Cached per pattern and capture.
+func (m *Machine) captureUniqueGlobally(re *Regex, name string) bool {
+	key := re.Pattern + "\x00" + name
+	uniqMu.Lock()
+	defer uniqMu.Unlock()
+	if known, ok := uniqCache[key]; ok {
+		return known
 	}
-	if r := m.Solver.CheckPC(m.pc, []*Term{d1.Constraint, d2.Constraint, Or(diff...)}); r != Unsat {
-		unsupported("AMBIGUOUS-CAPTURE: %q has more than one parse for some subject on this path (%v)", re.Pattern, r)
+	subj := VarT("uq_subject", SString)
+	d1, d2 := m.twoDecomps(re, name, "a", "b", subj)
+	q := []*Term{Le(Len(subj), IntT(int64(m.Cfg.MaxStrLen+4))), d1.Constraint, d2.Constraint, Not(Eq(d1.Captures[name], d2.Captures[name]))}
+	r := m.Solver.Check(q)
+	uniqCache[key] = r == Unsat
+	return r == Unsat
+}
+
+// captureUniqueOnPath: under the path condition the capture has a single
+// value; otherwise the run is inconclusive.
+func (m *Machine) captureUniqueOnPath(re *Regex, s *Term, name string) {
+	d1, d2 := m.twoDecomps(re, name, "c", "d", s)
+	if r, model := m.Solver.CheckPCModel(m.pc, []*Term{d1.Constraint, d2.Constraint, Not(Eq(d1.Captures[name], d2.Captures[name]))}, []*Term{s, d1.Captures[name], d2.Captures[name]}); r != Unsat {
+		w := ""
+		if r == Sat {
+			w = fmt.Sprintf(" e.g. subject %q: %q or %q", model[s.Key()].S, model[d1.Captures[name].Key()].S, model[d2.Captures[name].Key()].S)
+		}
+		unsupported("AMBIGUOUS-CAPTURE: group %q of %q has more than one parse for some subject on this path (%v)%s", name, truncate(re.Pattern, 60), r, w)
 	}
 }
 
